@@ -132,7 +132,7 @@ def gen_call(rng, idx):
     else:
         value = rng.randint(1, max(1, len(xs) // 2))
     bkspread = rng.choice([1.0, 1.0, 1.0, 0.5, 2.0])
-    coeff = [C.dyadic(rng, -8, 8, 6) for _ in range(64)]
+    coeff = [C.dyadic(rng, -8, 8, 6) for _ in range(160)]
     ne = rng.randint(6, 14) if k <= 4 else rng.randint(3, 6)
     xe = [C.dyadic(rng, xmin - rg / 8, xmax + rg / 8, 12) for _ in range(ne)]
     xe += rng.sample(xs, min(len(xs), 4))                      # data points themselves
@@ -151,7 +151,19 @@ def gen_call(rng, idx):
     elif t == 6:
         call['sparse'] = 'isolated-min'
         call['first'] = rng.randrange(8)
+    # multi-call history on one object: evaluate, change knots + coefficients (in place / by assignment), evaluate again
+    if idx % 5 in (1, 2) and "sparse" not in call:
+        call['history'] = {'mode': 'inplace' if idx % 2 else 'assign', 'shift': rng.choice([0.125, 0.375, -0.25]),
+                           'follow': rng.random() < 0.7}
     return call
+
+
+def hist_term(c, r):
+    h = r['hist']
+    ob = '(mkObsv %s %s %s %s %s %s %s %s %s)' % (
+        ql(h['bk']), ql(h['xe']), nl(h['perm']), ql(h['yy']), bl(h['mask']), nl(h['indx']),
+        C.coq_list([ql(row) for row in h['bs']]), zl(h['lower']), zl(h['upper']))
+    return '(CHist %d%%nat %s %s)' % (c['nord'], ql(h['coeff']), ob)
 
 
 def case_term(c, r):
@@ -194,9 +206,28 @@ def correspond(ctx, proof_ok=True):
                      'meaning': 'the constructor/evaluation must produce a knot vector and finite values for every '
                                 'breakpoint option; an exception or NaN contradicts the property directly'}, True)
             continue
+        if r.get('args_mutated') or r.get('result_aliases_arg'):
+            sig = 'C08:value:argument-modified' if r.get('args_mutated') else 'C08:value:result-aliases-argument'
+            if sig not in seen:
+                seen.add(sig)
+                ctx.violation(sig, 'a caller-owned array was modified by the call (%s) / the result shares memory with an argument' % r.get('args_mutated'),
+                              {'kind': 'failing-input', 'call': c, 'impl_result': {k_: r[k_] for k_ in ('args_mutated', 'result_aliases_arg')}}, True)
         terms.append(case_term(c, r))
         owners.append(i)
         npoints += len(r['xe'])
+        h = r.get('hist')
+        if h is not None:
+            if 'err' in h or not h.get('finite', True):
+                sig = 'C08:history:impl=%s' % (h.get('err') or 'non-finite')
+                if sig not in seen:
+                    seen.add(sig)
+                    ctx.violation(sig, 'evaluating again after changing knots/coefficients on the same object: %s %s' % (h.get('err'), h.get('msg', '')),
+                                  {'kind': 'failing-input', 'history': ['construct', 'value(xe)', 'change breakpoints+coeff (%s)' % c['history']['mode'], 'value(xe2)'],
+                                   'call': c, 'impl_result': h}, True)
+            else:
+                terms.append(hist_term(c, r))
+                owners.append(-(i + 1))          # negative: the history step of call i
+                npoints += len(h['xe'])
     cc = C.CoqCases(ctx.work, HEADER, 'run_cases', shard=1)
     verdicts = cc.run(terms) if terms else []
     ctx.coverage.update({
@@ -210,10 +241,23 @@ def correspond(ctx, proof_ok=True):
         'model_disagreements': sum(1 for v in verdicts if v & 1),
         'spec_violations': sum(1 for v in verdicts if v & 2),
         'samples': [{'call': {k: (v if k != 'coeff' else v[:6]) for k, v in calls[i].items()},
-                     'impl': {k: results[i][k] for k in ('bk', 'bk_dtype', 'nc')}} for i in owners[:3]],
+                     'impl': {k: results[i][k] for k in ('bk', 'bk_dtype', 'nc')}} for i in [o for o in owners if o >= 0][:3]],
     })
     for t, i, v in zip(terms, owners, verdicts):
         if v == 0:
+            continue
+        if i < 0:
+            c, r = calls[-i - 1], results[-i - 1]
+            sig = 'C08:history:%s' % ('property' if v & 2 else 'model')
+            if sig in seen:
+                continue
+            seen.add(sig)
+            diag = cc.show('diagnose %s' % t)
+            ctx.violation(sig, 'history-dependent result: after evaluating, changing breakpoints/coefficients (%s) and evaluating again on the '
+                          'SAME object, the values are not those of the current knots and coefficients (%s, nord=%d)' % (
+                              c['history']['mode'], c['opt']['kind'], c['nord']),
+                          {'kind': 'failing-input', 'history': ['construct', 'value(xe)', 'change breakpoints+coeff (%s)' % c['history']['mode'], 'value(xe2)'],
+                           'call': c, 'impl_result': r['hist'], 'verdict': v, 'diagnose': diag[-300:]}, True)
             continue
         c, r = calls[i], results[i]
         sig = 'C08:%s:%s' % (c['opt']['kind'], 'property' if v & 2 else 'model')
